@@ -79,6 +79,16 @@ def step (s : St) (toks : List String) : St × String :=
       let (acc, w) := s.acc.addHash H h
       ({ s with acc := acc, leaves := s.leaves.push h }, s!"w {acc.length} " ++ witsStr w)
     | none => (s, "bad-op")
+  | ["addq", x] => match Hex.decodeWire x with
+    | some d =>
+      let (acc, w) := s.acc.addData H d
+      ({ s with acc := acc, leaves := s.leaves.push (H d) }, s!"w {acc.length} " ++ witsStr w)
+    | none => (s, "bad-op")
+  | ["addhq", x] => match Hex.decodeWire x with
+    | some h =>
+      let (acc, w) := s.acc.addHash H h
+      ({ s with acc := acc, leaves := s.leaves.push h }, s!"w {acc.length} " ++ witsStr w)
+    | none => (s, "bad-op")
   | ["wit", x] => match x.toNat? with
     | some idx =>
       let (acc, r) := s.acc.witnessFor s.db idx
